@@ -1,5 +1,5 @@
 (* SchemaProofs.v — proofs about SchemaNew.v (model of Schema::new) against SchemaSpec.v. *)
-From Coq Require Import Lia Permutation OrderedTypeEx.
+From Coq Require Import Lia Permutation OrderedTypeEx Sorted.
 From TF Require Import Values ValuesProofs Ty TyProofs SchemaAst SchemaNew SchemaSpec.
 Local Open Scope string_scope.
 Local Open Scope nat_scope.
@@ -467,3 +467,778 @@ Qed.
 Lemma ty_valid_fits g v : enum_free v = true ->
   ty_valid (T (gbase g) (g_aty g)) v = Ok (validT (gbase g) (g_aty g) v).
 Proof. intros E. rewrite ty_valid_T. now apply a_valid_enum_free. Qed.
+
+(* ====================================================================================== *)
+(* 3. Parameter maps (BTreeMap collected from the argument list)                            *)
+(* ====================================================================================== *)
+Definition klt {V} (a b : string * V) : Prop := String.compare (fst a) (fst b) = Lt.
+Definition ssorted {V} (m : list (string * V)) : Prop := StronglySorted klt m.
+
+Lemma smap_insert_sorted {V} k (v : V) m : ssorted m -> ssorted (smap_insert k v m).
+Proof.
+  induction m as [|[k' v'] m IH]; intros S; cbn; [repeat constructor|].
+  inversion S as [|? ? S1 S2]; subst.
+  destruct (String.compare k k') eqn:C.
+  - apply cmp_eq in C. subst k'. constructor; [exact S1 | exact S2].
+  - constructor; [exact S|]. constructor; [exact C|].
+    rewrite Forall_forall in *. intros x Hx. unfold klt in *. cbn in *. eapply cmp_lt_trans; eauto.
+  - constructor; [now apply IH|]. rewrite Forall_forall in *. intros [kx vx] Hx.
+    assert (Hk : In kx (map fst (smap_insert k v m))) by (change kx with (fst (kx, vx)); now apply in_map).
+    apply smap_keys_insert in Hk. unfold klt. cbn. destruct Hk as [->|Hk].
+    + now apply cmp_gt_lt.
+    + apply in_map_iff in Hk. destruct Hk as [[ky vy] [Ey Hy]]. cbn in Ey. subst ky.
+      apply (S2 _ Hy).
+Qed.
+
+Lemma ssorted_get {V} (m : list (string * V)) k v : ssorted m -> In (k, v) m -> smap_get k m = Some v.
+Proof.
+  induction m as [|[k' v'] m IH]; intros S H; [destruct H|].
+  inversion S as [|? ? S1 S2]; subst. cbn. destruct H as [[= -> ->]|H].
+  - now rewrite String.eqb_refl.
+  - destruct (String.eqb_spec k k') as [->|E]; [|now apply IH].
+    rewrite Forall_forall in S2. specialize (S2 _ H). unfold klt in S2. cbn in S2.
+    rewrite cmp_refl in S2. discriminate.
+Qed.
+
+Lemma pmap_snoc args a : pmap (args ++ [a]) = smap_insert (a_name a) (a_ty a) (pmap args).
+Proof. unfold pmap. now rewrite fold_left_app. Qed.
+
+Lemma pmap_sorted args : ssorted (pmap args).
+Proof.
+  induction args as [|a args IH] using rev_ind; [constructor|].
+  rewrite pmap_snoc. now apply smap_insert_sorted.
+Qed.
+
+Lemma param_ty_nil n g : ~ param_ty [] n g.
+Proof. intros [pre [a [post [E _]]]]. destruct pre; discriminate. Qed.
+
+Lemma param_ty_snoc args a n g :
+  param_ty (args ++ [a]) n g <-> (a_name a = n /\ a_ty a = g) \/ (a_name a <> n /\ param_ty args n g).
+Proof.
+  split.
+  - intros [pre [b [post [E [H1 [H2 H3]]]]]].
+    destruct post as [|c post] using rev_ind.
+    + apply app_inj_tail in E. destruct E as [_ <-]. now left.
+    + clear IHpost. rewrite app_comm_cons, app_assoc in E. apply app_inj_tail in E. destruct E as [E <-].
+      right. split.
+      * apply H3. apply in_or_app. right. now left.
+      * exists pre, b, post. repeat split; auto. intros x Hx. apply H3. apply in_or_app. now left.
+  - intros [[H1 H2]|[H1 [pre [b [post [E [H2 [H3 H4]]]]]]]].
+    + exists args, a, []. repeat split; auto; intros x [].
+    + exists pre, b, (post ++ [a]). subst args. rewrite <- app_assoc. repeat split; auto.
+      intros x Hx. apply in_app_or in Hx. destruct Hx as [Hx|[<-|[]]]; auto.
+Qed.
+
+Lemma pmap_get args n g : smap_get n (pmap args) = Some g <-> param_ty args n g.
+Proof.
+  revert g. induction args as [|a args IH] using rev_ind; intros g.
+  - cbn. split; [discriminate | intros H; now apply param_ty_nil in H].
+  - rewrite pmap_snoc, smap_get_insert, param_ty_snoc.
+    destruct (String.eqb_spec n (a_name a)) as [->|E].
+    + split; [intros [= <-]; now left | intros [[_ ->]|[H _]]; [reflexivity | congruence]].
+    + rewrite IH. split; [intros H; right; split; [congruence | exact H] | intros [[H _]|[_ H]]; [congruence | exact H]].
+Qed.
+
+Lemma pmap_In args n g : In (n, g) (pmap args) <-> param_ty args n g.
+Proof.
+  rewrite <- pmap_get. split; [apply ssorted_get, pmap_sorted | apply smap_get_In].
+Qed.
+
+Lemma pmap_keys args n : In n (map fst (pmap args)) <-> In n (map a_name args).
+Proof.
+  induction args as [|a args IH] using rev_ind; [reflexivity|].
+  rewrite pmap_snoc, smap_keys_insert, IH, map_app, in_app_iff. cbn. intuition.
+Qed.
+
+(* ====================================================================================== *)
+(* 4. The checks, one by one                                                                *)
+(* ====================================================================================== *)
+Lemma NoDup_map_inj {A B} (f : A -> B) l a b :
+  NoDup (map f l) -> In a l -> In b l -> f a = f b -> a = b.
+Proof.
+  induction l as [|x l IH]; intros N Ha Hb E; [destruct Ha|].
+  cbn in N. inversion N as [|? ? N1 N2]; subst.
+  destruct Ha as [<-|Ha], Hb as [<-|Hb]; auto.
+  - exfalso. apply N1. rewrite E. now apply in_map.
+  - exfalso. apply N1. rewrite <- E. now apply in_map.
+Qed.
+
+Lemma if_nil {A} (b : bool) (x : A) : (if b then [x] else []) = [] <-> b = false.
+Proof. destruct b; split; congruence. Qed.
+Lemma app_nil_iff {A} (a b : list A) : a ++ b = [] <-> a = [] /\ b = [].
+Proof. split; [apply app_eq_nil | intros [-> ->]; reflexivity]. Qed.
+
+Section Checks.
+  Variable ts : list tdef.
+  Hypothesis U : uniq ts.
+
+  Lemma find_defines n t : find_type n ts = Some t <-> defines ts t n.
+  Proof. symmetry. apply defines_find. apply U. Qed.
+
+  Lemma name_inj t u : In t ts -> In u ts -> t_name t = t_name u -> t = u.
+  Proof. apply NoDup_map_inj. apply U. Qed.
+
+  Lemma field_inj t f g : In t ts -> In f (t_fields t) -> In g (t_fields t) -> f_name f = f_name g -> f = g.
+  Proof. intros Ht. apply NoDup_map_inj. now apply U. Qed.
+
+  Lemma fields_In tn fn f :
+    In ((tn, fn), f) (all_fields ts) <-> exists t, In t ts /\ t_name t = tn /\ In f (t_fields t) /\ f_name f = fn.
+  Proof.
+    unfold all_fields. rewrite in_flat_map. split.
+    - intros [t [Ht H]]. apply in_map_iff in H. destruct H as [g [E Hg]]. unfold mkf in E.
+      injection E as <- <- <-. eauto 6.
+    - intros [t [Ht [<- [Hf <-]]]]. exists t. split; [exact Ht|]. apply in_map_iff. exists f. auto.
+  Qed.
+
+  Lemma fields_get tn fn f :
+    omap_get (tn, fn) (all_fields ts) = Some f <->
+    exists t, In t ts /\ t_name t = tn /\ In f (t_fields t) /\ f_name f = fn.
+  Proof.
+    rewrite <- fields_In. split; [apply omap_get_In|].
+    intros H. destruct (omap_get (tn, fn) (all_fields ts)) as [g|] eqn:E.
+    - apply omap_get_In in E. apply fields_In in E, H.
+      destruct E as [t [Ht [E1 [Hg E2]]]], H as [u [Hu [E3 [Hf E4]]]].
+      assert (t = u) by (apply name_inj; congruence). subst u.
+      f_equal. apply (field_inj t); congruence.
+    - apply omap_get_none in E. exfalso. apply E. change (tn, fn) with (fst ((tn, fn), f)). now apply in_map.
+  Qed.
+
+  Lemma fields_none tn fn :
+    omap_get (tn, fn) (all_fields ts) = None <->
+    ~ exists t f, In t ts /\ t_name t = tn /\ In f (t_fields t) /\ f_name f = fn.
+  Proof.
+    split.
+    - intros E [t [f H]]. assert (H' : omap_get (tn, fn) (all_fields ts) = Some f) by (apply fields_get; eauto).
+      congruence.
+    - intros H. destruct (omap_get (tn, fn) (all_fields ts)) as [f|] eqn:E; [|reflexivity].
+      exfalso. apply H. apply fields_get in E. destruct E as [t E]. eauto.
+  Qed.
+
+  (* ---------- is_subtype ---------- *)
+  Lemma named_subtype_iff p c : named_subtype ts p c = true <-> named_sub ts p c.
+  Proof.
+    unfold named_subtype, named_sub.
+    destruct (has_type p ts) eqn:Hp; destruct (find_type c ts) as [cd|] eqn:Hc.
+    - apply has_type_In, defined_iff in Hp. apply find_defines in Hc.
+      rewrite orb_true_iff, String.eqb_eq, mem_In. split.
+      + intros H. right. split; [exact Hp|]. eauto.
+      + intros [[N _]|[_ [c0 [Hc0 H]]]]; [contradiction|].
+        assert (c0 = cd). { destruct Hc0 as [H1 H2], Hc as [H3 H4]. apply name_inj; congruence. }
+        now subst.
+    - apply has_type_In, defined_iff in Hp. split; [discriminate|].
+      intros [[N _]|[_ [c0 [Hc0 _]]]]; [contradiction|]. apply find_defines in Hc0. congruence.
+    - apply has_type_false in Hp. rewrite <- defined_iff in Hp. apply find_defines in Hc. split; [discriminate|].
+      intros [[_ [N _]]|[D _]]; [|contradiction]. exfalso. apply N. now exists cd.
+    - apply has_type_false in Hp. rewrite <- defined_iff in Hp. apply find_type_none in Hc.
+      rewrite <- defined_iff in Hc. rewrite String.eqb_eq. split.
+      + intros ->. left. auto.
+      + intros [[_ [_ E]]|[D _]]; [exact E | contradiction].
+  Qed.
+
+  Lemma null_ok_iff pn cn : negb pn && cn = false <-> (pn = true \/ cn = false).
+  Proof. destruct pn, cn; cbn; intuition congruence. Qed.
+
+  Lemma is_subtype_iff p : forall c, is_subtype ts p c = true <-> gsub ts p c.
+  Proof.
+    induction p as [pnm pn|p IH pn]; intros [cnm cn|c cn]; cbn [is_subtype gnullable].
+    - destruct (negb pn && cn) eqn:E.
+      + split; [discriminate|]. intros H. inversion H; subst. apply null_ok_iff in H3. congruence.
+      + rewrite named_subtype_iff. apply null_ok_iff in E. split; [intros H; now constructor|].
+        intros H. now inversion H.
+    - destruct (negb pn && cn); (split; [discriminate | intros H; inversion H]).
+    - destruct (negb pn && cn); (split; [discriminate | intros H; inversion H]).
+    - destruct (negb pn && cn) eqn:E.
+      + split; [discriminate|]. intros H. inversion H; subst. apply null_ok_iff in H3. congruence.
+      + rewrite IH. apply null_ok_iff in E. split; [intros H; now constructor|].
+        intros H. now inversion H.
+  Qed.
+
+  (* ---------- check_required_transitive_implementations ---------- *)
+  Definition P_transitive : Prop :=
+    forall t i, In t ts -> In i (t_impl t) ->
+      exists it, defines ts it i /\ t_kind it = VInterface /\
+                 forall j, In j (t_impl it) -> j = t_name t \/ In j (t_impl t).
+
+  Lemma check_transitive_nil : check_transitive ts = [] <-> P_transitive.
+  Proof.
+    unfold check_transitive, P_transitive. rewrite flat_map_nil. split.
+    - intros H t i Ht Hi. specialize (H t (proj2 (sort_types_In t ts) Ht)). cbn in H.
+      rewrite flat_map_nil in H. specialize (H i (proj2 (In_sset_of i _) Hi)).
+      unfold transitive_one in H. destruct (find_type i ts) as [it|] eqn:Ef; [|discriminate].
+      destruct (t_kind it) eqn:Ek; [discriminate|]. exists it. split; [now apply find_defines|].
+      split; [exact Ek|]. intros j Hj. rewrite flat_map_nil in H. specialize (H j Hj).
+      apply if_nil in H. apply andb_false_iff in H. rewrite !negb_false_iff in H.
+      destruct H as [H|H]; [left; now apply String.eqb_eq | right; apply mem_In in H; exact (proj1 (In_sset_of _ _) H)].
+    - intros H t Ht. apply (proj1 (sort_types_In _ _)) in Ht. apply flat_map_nil. intros i Hi. apply (proj1 (In_sset_of _ _)) in Hi.
+      destruct (H t i Ht Hi) as [it [Hd [Hk Hj]]]. unfold transitive_one.
+      apply find_defines in Hd. rewrite Hd, Hk. apply flat_map_nil. intros j Hjj. apply if_nil.
+      apply andb_false_iff. rewrite !negb_false_iff. destruct (Hj j Hjj) as [->|Hx].
+      + left. apply String.eqb_refl.
+      + right. apply mem_In. exact (proj2 (In_sset_of _ _) Hx).
+  Qed.
+
+  (* ---------- check_fields_required_by_interface_implementations ---------- *)
+  Definition P_present : Prop :=
+    forall t i it pf, In t ts -> In i (t_impl t) -> defines ts it i -> In pf (t_fields it) -> has_field t (f_name pf).
+
+  Lemma check_required_fields_nil : check_required_fields ts (all_fields ts) = [] <-> P_present.
+  Proof.
+    unfold check_required_fields, P_present. rewrite flat_map_nil. split.
+    - intros H t i it pf Ht Hi Hd Hpf. specialize (H t (proj2 (sort_types_In t ts) Ht)). cbn in H.
+      rewrite flat_map_nil in H. specialize (H i Hi). unfold required_one in H.
+      apply find_defines in Hd. rewrite Hd in H. rewrite flat_map_nil in H. specialize (H pf Hpf). cbn in H.
+      destruct (omap_get (t_name t, f_name pf) (all_fields ts)) as [f|] eqn:E; [|discriminate].
+      apply fields_get in E. destruct E as [u [Hu [E1 [Hf E2]]]].
+      assert (u = t) by (now apply name_inj). subst u. now exists f.
+    - intros H t Ht. apply (proj1 (sort_types_In _ _)) in Ht. apply flat_map_nil. intros i Hi. unfold required_one.
+      destruct (find_type i ts) as [it|] eqn:Ef; [|reflexivity]. apply find_defines in Ef.
+      apply flat_map_nil. intros pf Hpf. destruct (H t i it pf Ht Hi Ef Hpf) as [f [Hf E]].
+      assert (E' : omap_get (t_name t, f_name pf) (all_fields ts) = Some f) by (apply fields_get; eauto).
+      now rewrite E'.
+  Qed.
+End Checks.
+
+Lemma rflat_spec {A B} (f : A -> res (list B)) l (P : A -> Prop) :
+  (forall x, In x l -> exists r, f x = Ok r /\ (r = [] <-> P x)) ->
+  exists r, rflat f l = Ok r /\ (r = [] <-> forall x, In x l -> P x).
+Proof.
+  induction l as [|a l IH]; intros H.
+  - exists []. split; [reflexivity|]. split; [intros _ x [] | reflexivity].
+  - destruct (H a (or_introl eq_refl)) as [ra [Ea Pa]].
+    destruct IH as [rl [El Pl]]. { intros x Hx. apply H. now right. }
+    exists (ra ++ rl). cbn. rewrite Ea. cbn. rewrite El. cbn. split; [reflexivity|].
+    rewrite app_nil_iff, Pa, Pl. split.
+    + intros [H1 H2] x [<-|Hx]; auto.
+    + intros H0. split; [apply H0; now left | intros x Hx; apply H0; now right].
+Qed.
+
+Section Checks2.
+  Variable ts : list tdef.
+  Hypothesis U : uniq ts.
+  Hypothesis D : forall t f g, In t ts -> In f (t_fields t) -> In g (fld_gtys f) -> gdepth g <= 30.
+  Hypothesis EF : forall t f a, In t ts -> In f (t_fields t) -> In a (f_args f) -> arg_has_enum a = false.
+
+  Lemma param_depth t f n g : In t ts -> In f (t_fields t) -> param_ty (f_args f) n g -> gdepth g <= 30.
+  Proof.
+    intros Ht Hf [pre [a [post [E [_ [<- _]]]]]]. apply (D t f); auto. right. apply in_map. rewrite E.
+    apply in_or_app. right. now left.
+  Qed.
+
+  (* ---------- check_field_type_narrowing ---------- *)
+  Definition P_narrowed : Prop :=
+    forall t i it pf f, In t ts -> In i (t_impl t) -> defines ts it i -> In pf (t_fields it) ->
+                        In f (t_fields t) -> f_name f = f_name pf -> narrows ts pf f.
+
+  Lemma filter_nil {A} (p : A -> bool) l : filter p l = [] <-> forall x, In x l -> p x = false.
+  Proof.
+    induction l as [|a l IH]; cbn; [split; [intros _ x [] | reflexivity]|].
+    destruct (p a) eqn:E.
+    - split; [discriminate|]. intros H. rewrite (H a (or_introl eq_refl)) in E. discriminate.
+    - rewrite IH. split; [intros H x [<-|Hx]; auto | intros H x Hx; apply H; now right].
+  Qed.
+  Lemma match_nil {A B} (l : list A) (x : B) : match l with [] => [] | _ => [x] end = [] <-> l = [].
+  Proof. destruct l; split; congruence. Qed.
+
+  Lemma narrowing_one_spec t f i : In t ts -> In f (t_fields t) ->
+    exists r, narrowing_one ts (all_fields ts) (t_name t) f i = Ok r /\
+              (r = [] <-> forall it pf, defines ts it i -> In pf (t_fields it) -> f_name f = f_name pf ->
+                                        narrows ts pf f).
+  Proof.
+    intros Ht Hf. unfold narrowing_one.
+    destruct (omap_get (i, f_name f) (all_fields ts)) as [pf|] eqn:Eg.
+    - apply (fields_get ts U) in Eg. destruct Eg as [it [Hit [Ei [Hpf En]]]].
+      destruct (rflat_spec (narrowing_param (f_name f) (t_name t) i (pmap (f_args pf))) (pmap (f_args f))
+                  (fun p => forall pg, param_ty (f_args pf) (fst p) pg -> ssub (snd p) pg)) as [e4 [E4 P4]].
+      { intros [n g] Hp. apply pmap_In in Hp. unfold narrowing_param. cbn [fst snd].
+        destruct (smap_get n (pmap (f_args pf))) as [pg|] eqn:Ep.
+        - apply pmap_get in Ep.
+          assert (Dg : gdepth g <= 30) by exact (param_depth t f n g Ht Hf Hp).
+          assert (Dpg : gdepth pg <= 30) by exact (param_depth it pf n pg Hit Hpf Ep).
+          rewrite (from_type_ok g Dg), (from_type_ok pg Dpg). cbn [bind].
+          destruct (ty_sub (T (gbase g) (g_aty g)) (T (gbase pg) (g_aty pg))) eqn:Es.
+          + eexists. split; [reflexivity|]. split; [|reflexivity]. intros _ pg' Hpg'.
+            apply pmap_get in Ep, Hpg'. rewrite Ep in Hpg'. injection Hpg' as <-.
+            apply ty_sub_ssub in Es; [exact Es | exact Dg].
+          + eexists. split; [reflexivity|]. split; [discriminate|]. intros H. exfalso.
+            specialize (H pg Ep). apply ty_sub_ssub in H; [congruence | exact Dg].
+        - exists []. split; [reflexivity|]. split; [|reflexivity]. intros _ pg' Hpg'.
+          apply pmap_get in Hpg'. congruence. }
+      rewrite E4. cbn [bind]. eexists. split; [reflexivity|].
+      rewrite !app_nil_iff, P4. clear E4 P4.
+      assert (Huniq : forall it' pf', defines ts it' i -> In pf' (t_fields it') -> f_name f = f_name pf' -> pf' = pf).
+      { intros it' pf' [H1 H2] H3 H4. assert (it' = it) by (apply (name_inj ts U); congruence). subst it'.
+        apply (field_inj ts U it); congruence. }
+      split.
+      + intros [H1 [H2 [H3 H4]]] it' pf' Hd Hp He. rewrite (Huniq it' pf' Hd Hp He). unfold narrows.
+        split; [|split].
+        * destruct (is_subtype ts (f_ty pf) (f_ty f)) eqn:Es; [|discriminate]. now apply (is_subtype_iff ts U).
+        * apply match_nil in H2, H3. rewrite filter_nil in H2, H3. intros n. split; intros Hn.
+          -- apply pmap_keys in Hn. specialize (H2 n Hn). apply negb_false_iff, smap_has_In in H2.
+             now apply pmap_keys.
+          -- apply pmap_keys in Hn. specialize (H3 n Hn). apply negb_false_iff, smap_has_In in H3.
+             now apply pmap_keys.
+        * intros n g pg Hg Hpg. apply pmap_In in Hg. apply (H4 (n, g) Hg pg Hpg).
+      + intros H. specialize (H it pf (conj Hit Ei) Hpf (eq_sym En)). destruct H as [N1 [N2 N3]].
+        split; [|split; [|split]].
+        * apply (is_subtype_iff ts U) in N1. now rewrite N1.
+        * apply match_nil, filter_nil. intros n Hn. apply negb_false_iff, smap_has_In, pmap_keys, N2.
+          now apply pmap_keys.
+        * apply match_nil, filter_nil. intros n Hn. apply negb_false_iff, smap_has_In, pmap_keys, N2.
+          now apply pmap_keys.
+        * intros [n g] Hp pg Hpg. cbn in *. apply pmap_In in Hp. eapply N3; eauto.
+    - exists []. split; [reflexivity|]. split; [|reflexivity]. intros _ it pf [Hit Ei] Hpf En. exfalso.
+      apply (fields_none ts U) in Eg. apply Eg. exists it, pf. auto.
+  Qed.
+
+  Lemma check_narrowing_spec :
+    exists r, check_narrowing ts (all_fields ts) = Ok r /\ (r = [] <-> P_narrowed).
+  Proof.
+    unfold check_narrowing.
+    destruct (rflat_spec
+      (fun t => rflat (fun f => rflat (narrowing_one ts (all_fields ts) (t_name t) f) (t_impl t)) (t_fields t))
+      (sort_types ts)
+      (fun t => forall f, In f (t_fields t) -> forall i, In i (t_impl t) ->
+                forall it pf, defines ts it i -> In pf (t_fields it) -> f_name f = f_name pf -> narrows ts pf f))
+      as [r [E P]].
+    { intros t Ht. apply (proj1 (sort_types_In _ _)) in Ht. apply rflat_spec. intros f Hf.
+      apply rflat_spec. intros i Hi. now apply narrowing_one_spec. }
+    exists r. split; [exact E|]. rewrite P. unfold P_narrowed. split.
+    - intros H t i it pf f Ht Hi Hd Hpf Hf En. apply (H t (proj2 (sort_types_In _ _) Ht) f Hf i Hi it pf); auto.
+    - intros H t Ht f Hf i Hi it pf Hd Hpf En. apply (proj1 (sort_types_In _ _)) in Ht. eapply H; eauto.
+  Qed.
+End Checks2.
+
+Section Checks3.
+  Variable ts : list tdef.
+  Hypothesis U : uniq ts.
+  Hypothesis D : forall t f g, In t ts -> In f (t_fields t) -> In g (fld_gtys f) -> gdepth g <= 30.
+  Hypothesis EF : forall t f a, In t ts -> In f (t_fields t) -> In a (f_args f) -> arg_has_enum a = false.
+  Variable q : string.
+
+  (* ---------- check_type_and_property_and_edge_invariants ---------- *)
+  Lemma check_default_spec tn fn t f a : In t ts -> In f (t_fields t) -> In a (f_args f) ->
+    exists r, check_default tn fn a = Ok r /\ (r = [] <-> default_fits a).
+  Proof.
+    intros Ht Hf Ha. unfold check_default, default_fits. specialize (EF t f a Ht Hf Ha).
+    unfold arg_has_enum in EF. destruct (a_default a) as [| |v].
+    - exists []. split; [reflexivity | tauto].
+    - eexists. split; [reflexivity|]. split; [discriminate | intros []].
+    - apply negb_false_iff in EF.
+      rewrite from_type_ok by (apply (D t f); auto; right; now apply in_map). cbn [bind].
+      rewrite ty_valid_fits by exact EF. cbn [bind].
+      destruct (validT (gbase (a_ty a)) (g_aty (a_ty a)) v) eqn:Ev.
+      + exists []. split; [reflexivity|]. split; [|reflexivity]. intros _. now apply validT_fits.
+      + eexists. split; [reflexivity|]. split; [discriminate|]. intros H. apply validT_fits in H. congruence.
+  Qed.
+
+  Definition field_ok (f : fld) : Prop :=
+    reserved_name (f_name f) = false /\
+    ((builtin_scalar (gbase (f_ty f)) = true /\ f_args f = []) \/
+     (builtin_scalar (gbase (f_ty f)) = false /\ defined ts (gbase (f_ty f)) /\ gbase (f_ty f) <> q /\
+      (forall a, In a (f_args f) -> default_fits a) /\ gdepth (f_ty f) <= 1)).
+
+  Lemma edge_shape_nil g tn fn :
+    match ty_as_list (T (gbase g) (g_aty g)) with
+    | Some inner => if ty_is_list inner then [EInvalidEdgeType tn fn (ty_display (T (gbase g) (g_aty g)))] else []
+    | None => []
+    end = [] <-> gdepth g <= 1.
+  Proof.
+    destruct g as [s nl|[s nl2|i nl2] nl]; cbn [g_aty gbase gdepth].
+    - rewrite as_list_T_named. split; [lia | reflexivity].
+    - rewrite as_list_T_list, is_list_T. cbn. split; [lia | reflexivity].
+    - rewrite as_list_T_list, is_list_T. cbn. split; [discriminate | lia].
+  Qed.
+
+  Lemma check_field_invariants_spec t f : In t ts -> In f (t_fields t) ->
+    exists r, check_field_invariants ts q (t_name t) f = Ok r /\ (r = [] <-> field_ok f).
+  Proof.
+    intros Ht Hf. unfold check_field_invariants, field_ok.
+    rewrite from_type_ok by (apply (D t f); auto; now left). cbn [bind]. unfold ty_base_type. rewrite base_T.
+    destruct (builtin_scalar (gbase (f_ty f))) eqn:Eb.
+    - eexists. split; [reflexivity|]. rewrite app_nil_iff, if_nil, match_nil. split.
+      + intros [H1 H2]. split; [exact H1|]. left. auto.
+      + intros [H1 [[_ H2]|[H2 _]]]; [auto | discriminate].
+    - destruct (has_type (gbase (f_ty f)) ts) eqn:Eh.
+      + apply has_type_In, defined_iff in Eh.
+        destruct (String.eqb_spec (gbase (f_ty f)) q) as [Eq|Eq].
+        * eexists. split; [reflexivity|]. split.
+          -- intros H. apply app_eq_nil in H. destruct H; discriminate.
+          -- intros [_ [[H _]|[_ [_ [H _]]]]]; [discriminate | contradiction].
+        * destruct (rflat_spec (check_default (t_name t) (f_name f)) (f_args f) default_fits) as [ed [Ed Pd]].
+          { intros a Ha. eapply check_default_spec; eauto. }
+          rewrite Ed. cbn [bind]. eexists. split; [reflexivity|].
+          rewrite !app_nil_iff, if_nil, Pd, edge_shape_nil. split.
+          -- intros [H1 [H2 H3]]. split; [exact H1|]. right. auto 6.
+          -- intros [H1 [[H _]|[_ [_ [_ [H2 H3]]]]]]; [discriminate | auto].
+      + apply has_type_false in Eh. rewrite <- defined_iff in Eh.
+        eexists. split; [reflexivity|]. split.
+        * intros H. apply app_eq_nil in H. destruct H; discriminate.
+        * intros [_ [[H _]|[_ [H _]]]]; [discriminate | contradiction].
+  Qed.
+
+  Definition P_invariants : Prop :=
+    forall t, In t ts -> reserved_name (t_name t) = false /\ forall f, In f (t_fields t) -> field_ok f.
+
+  Lemma check_invariants_spec :
+    exists r, check_invariants q ts = Ok r /\ (r = [] <-> P_invariants).
+  Proof.
+    unfold check_invariants.
+    destruct (rflat_spec
+      (fun t => let e0 := if reserved_name (t_name t) then [EReservedType (t_name t)] else [] in
+                do ef <- rflat (check_field_invariants ts q (t_name t)) (t_fields t); Ok (e0 ++ ef))
+      (sort_types ts)
+      (fun t => reserved_name (t_name t) = false /\ forall f, In f (t_fields t) -> field_ok f)) as [r [E P]].
+    { intros t Ht. apply (proj1 (sort_types_In _ _)) in Ht.
+      destruct (rflat_spec (check_field_invariants ts q (t_name t)) (t_fields t) field_ok) as [ef [Ef Pf]].
+      { intros f Hf. now apply check_field_invariants_spec. }
+      cbn zeta. rewrite Ef. cbn [bind]. eexists. split; [reflexivity|].
+      rewrite app_nil_iff, if_nil, Pf. reflexivity. }
+    exists r. split; [exact E|]. rewrite P. unfold P_invariants. split.
+    - intros H t Ht. apply H. now apply sort_types_In.
+    - intros H t Ht. apply H. now apply (proj1 (sort_types_In _ _)).
+  Qed.
+
+  (* ---------- check_root_query_type_invariants ---------- *)
+  Lemma check_root_spec qt : In qt ts ->
+    exists r, check_root qt = Ok r /\
+              (r = [] <-> forall f, In f (t_fields qt) -> builtin_scalar (gbase (f_ty f)) = false).
+  Proof.
+    intros Hq. unfold check_root. apply rflat_spec. intros f Hf.
+    rewrite from_type_ok by (apply (D qt f); auto; now left). cbn [bind]. unfold ty_base_type. rewrite base_T.
+    destruct (builtin_scalar (gbase (f_ty f))).
+    - eexists. split; [reflexivity|]. split; discriminate.
+    - exists []. split; [reflexivity|]. tauto.
+  Qed.
+End Checks3.
+
+(* ====================================================================================== *)
+(* 5. get_field_origins                                                                     *)
+(* ====================================================================================== *)
+Lemma rfold_app {A S} (f : S -> A -> res S) a b s :
+  rfold f (a ++ b) s = (do s' <- rfold f a s; rfold f b s').
+Proof.
+  revert s. induction a as [|x a IH]; intros s; cbn; [reflexivity|].
+  destruct (f s x); cbn; auto.
+Qed.
+Lemma rfold_ext {A S} (f g : S -> A -> res S) l s :
+  (forall s x, In x l -> f s x = g s x) -> rfold f l s = rfold g l s.
+Proof.
+  revert s. induction l as [|x l IH]; intros s H; cbn; [reflexivity|].
+  rewrite (H s x (or_introl eq_refl)). destruct (g s x); cbn; [|reflexivity].
+  apply IH. intros s' y Hy. apply H. now right.
+Qed.
+Lemma rfold_map {A B S} (f : S -> B -> res S) (h : A -> B) l s :
+  rfold f (map h l) s = rfold (fun s x => f s (h x)) l s.
+Proof.
+  revert s. induction l as [|x l IH]; intros s; cbn; [reflexivity|]. destruct (f s (h x)); cbn; auto.
+Qed.
+Lemma rfold_flat_map {A B S} (f : S -> B -> res S) (g : A -> list B) l s :
+  rfold f (flat_map g l) s = rfold (fun s x => rfold f (g x) s) l s.
+Proof.
+  revert s. induction l as [|x l IH]; intros s; cbn; [reflexivity|].
+  rewrite rfold_app. destruct (rfold f (g x) s); cbn; auto.
+Qed.
+(* loop invariant indexed by the processed prefix *)
+Lemma rfold_inv {A S} (f : S -> A -> res S) (P : list A -> S -> Prop) l :
+  forall pre s, P pre s ->
+  (forall pre' x s, P pre' s -> In x l -> exists s', f s x = Ok s' /\ P (pre' ++ [x]) s') ->
+  exists s', rfold f l s = Ok s' /\ P (pre ++ l) s'.
+Proof.
+  induction l as [|x l IH]; intros pre s H0 Hs.
+  - exists s. rewrite app_nil_r. auto.
+  - destruct (Hs pre x s H0 (or_introl eq_refl)) as [s1 [E1 P1]]. cbn. rewrite E1. cbn.
+    destruct (IH (pre ++ [x]) s1 P1) as [s2 [E2 P2]].
+    { intros pre' y s' Hp Hy. apply Hs; auto. now right. }
+    exists s2. rewrite <- app_assoc in P2. auto.
+Qed.
+
+Definition oset (o : origin) : list string := match o with Single a => [a] | Multiple l => l end.
+Definition multi_ok (o : origin) : Prop :=
+  match o with Single _ => True | Multiple l => exists a b, In a l /\ In b l /\ a <> b end.
+
+Lemma origin_add_set l r a : In a (oset (origin_add l r)) <-> In a (oset l) \/ In a (oset r).
+Proof.
+  destruct l as [x|m], r as [y|m']; cbn [origin_add oset].
+  - destruct (String.eqb_spec x y) as [->|E]; cbn [oset In]; [intuition|].
+    rewrite !In_sset_insert. cbn [In]. intuition.
+  - rewrite In_sset_insert. cbn. intuition.
+  - rewrite In_sset_insert. cbn. intuition.
+  - rewrite In_sset_fold. intuition.
+Qed.
+Lemma origin_add_multi l r : multi_ok l -> multi_ok r -> multi_ok (origin_add l r).
+Proof.
+  destruct l as [x|m], r as [y|m']; cbn [origin_add multi_ok]; intros Hl Hr.
+  - destruct (String.eqb_spec x y) as [->|E]; cbn [multi_ok]; [exact I|].
+    exists x, y. rewrite !In_sset_insert. cbn [In]. intuition.
+  - destruct Hr as [a [b [Ha [Hb N]]]]. exists a, b. rewrite !In_sset_insert. auto.
+  - destruct Hl as [a [b [Ha [Hb N]]]]. exists a, b. rewrite !In_sset_insert. auto.
+  - destruct Hl as [a [b [Ha [Hb N]]]]. exists a, b. rewrite !In_sset_fold. auto.
+Qed.
+
+Section Origins.
+  Variable ts : list tdef.
+  Hypothesis U : uniq ts.
+
+  Definition orepr (tn fn : string) (o : origin) : Prop :=
+    (forall a, In a (oset o) <-> origin_of ts tn fn a) /\ multi_ok o.
+
+  (* acc accumulates the origins contributed by the (interface, field) pairs of C *)
+  Definition represents (C : list (string * string)) (acc : list (string * origin)) : Prop :=
+    forall fn, match smap_get fn acc with
+               | None => forall i, ~ In (i, fn) C
+               | Some o => (exists i, In (i, fn) C) /\
+                           (forall a, In a (oset o) <-> exists i, In (i, fn) C /\ origin_of ts i fn a) /\
+                           multi_ok o
+               end.
+
+  Lemma represents_step C acc i fn po :
+    represents C acc -> orepr i fn po -> represents (C ++ [(i, fn)]) (impl_add acc fn po).
+  Proof.
+    intros R [P1 P2] fn'. specialize (R fn'). unfold impl_add.
+    destruct (String.eqb_spec fn' fn) as [->|N].
+    - destruct (smap_get fn acc) as [o|] eqn:Eo.
+      + rewrite smap_get_update, String.eqb_refl, Eo. destruct R as [[i0 H0] [R2 R3]].
+        split; [|split].
+        * exists i0. apply in_or_app. now left.
+        * intros a. rewrite origin_add_set, R2, P1. split.
+          -- intros [[j [Hj Oj]]|O]; [exists j | exists i]; split; auto; apply in_or_app; [left | right; left]; auto.
+          -- intros [j [Hj Oj]]. apply in_app_or in Hj. destruct Hj as [Hj|[[= -> ]|[]]]; [left; eauto | right; auto].
+        * now apply origin_add_multi.
+      + rewrite smap_get_insert, String.eqb_refl. split; [|split].
+        * exists i. apply in_or_app. right. now left.
+        * intros a. rewrite P1. split.
+          -- intros O. exists i. split; [apply in_or_app; right; now left | exact O].
+          -- intros [j [Hj Oj]]. apply in_app_or in Hj. destruct Hj as [Hj|[[= -> ]|[]]]; [|exact Oj].
+             exfalso. now apply (R j).
+        * exact P2.
+    - assert (G : smap_get fn' (match smap_get fn acc with
+                                 | Some o => smap_update fn (origin_add o po) acc
+                                 | None => smap_insert fn po acc end) = smap_get fn' acc).
+      { destruct (smap_get fn acc); [rewrite smap_get_update | rewrite smap_get_insert];
+          apply String.eqb_neq in N; now rewrite N. }
+      rewrite G. clear G.
+      assert (HC : forall j, In (j, fn') (C ++ [(i, fn)]) <-> In (j, fn') C).
+      { intros j. rewrite in_app_iff. cbn. split; [intros [H|[[= _ E]|[]]]; [exact H | congruence] | auto]. }
+      destruct (smap_get fn' acc) as [o|].
+      + destruct R as [[i0 H0] [R2 R3]]. split; [|split]; [exists i0; now apply HC | | exact R3].
+        intros a. rewrite R2. split; intros [j [Hj Oj]]; exists j; split; auto; now apply HC.
+      + intros j Hj. apply HC in Hj. now apply (R j).
+  Qed.
+
+  Definition contribs (defn : tdef) : list (string * string) :=
+    flat_map (fun i => match find_type i ts with
+                       | Some it => map (fun pf => (i, f_name pf)) (t_fields it)
+                       | None => []
+                       end) (t_impl defn).
+
+  Lemma contribs_In defn i fn :
+    In (i, fn) (contribs defn) <-> In i (t_impl defn) /\ exists it, defines ts it i /\ has_field it fn.
+  Proof.
+    unfold contribs. rewrite in_flat_map. split.
+    - intros [j [Hj H]]. destruct (find_type j ts) as [it|] eqn:Ef; [|destruct H].
+      apply in_map_iff in H. destruct H as [pf [[= <- <-] Hpf]]. split; [exact Hj|].
+      exists it. split; [now apply find_defines | now exists pf].
+    - intros [Hi [it [Hd [pf [Hpf <-]]]]]. exists i. split; [exact Hi|].
+      apply (find_defines ts U) in Hd. rewrite Hd. apply in_map_iff. now exists pf.
+  Qed.
+
+  Definition inh_step (origins : list (okey * origin)) (acc : list (string * origin)) (c : string * string)
+    : res (list (string * origin)) :=
+    match omap_get c origins with
+    | None => Panic site_fo_origin_index
+    | Some po => Ok (impl_add acc (snd c) po)
+    end.
+
+  Lemma inherited_as_fold origins defn :
+    inherited_origins ts origins defn = rfold (inh_step origins) (contribs defn) [].
+  Proof.
+    unfold inherited_origins, contribs. rewrite rfold_flat_map. apply rfold_ext. intros acc i _.
+    destruct (find_type i ts) as [it|]; [|reflexivity]. rewrite rfold_map. reflexivity.
+  Qed.
+
+  Lemma inherited_spec origins defn :
+    (forall i fn, In (i, fn) (contribs defn) -> exists po, omap_get (i, fn) origins = Some po /\ orepr i fn po) ->
+    exists inh, inherited_origins ts origins defn = Ok inh /\ represents (contribs defn) inh.
+  Proof.
+    intros H. rewrite inherited_as_fold.
+    destruct (rfold_inv (inh_step origins) represents (contribs defn) [] []) as [inh [E R]].
+    - intros fn. cbn. intros i [].
+    - intros pre [i fn] acc R Hc. destruct (H i fn Hc) as [po [Eo Po]]. unfold inh_step. rewrite Eo.
+      eexists. split; [reflexivity|]. cbn [snd]. now apply represents_step.
+    - exists inh. auto.
+  Qed.
+  Lemma rfold_inv_split {A S} (f : S -> A -> res S) (P : list A -> S -> Prop) l s :
+    P [] s ->
+    (forall pre x post s, l = pre ++ x :: post -> P pre s -> exists s', f s x = Ok s' /\ P (pre ++ [x]) s') ->
+    exists s', rfold f l s = Ok s' /\ P l s'.
+  Proof.
+    intros H0 Hs.
+    assert (G : forall l' pre s, l = pre ++ l' -> P pre s -> exists s', rfold f l' s = Ok s' /\ P l s').
+    { induction l' as [|x l' IH]; intros pre s0 E Hp.
+      - exists s0. rewrite app_nil_r in E. subst. auto.
+      - destruct (Hs pre x l' s0 E Hp) as [s1 [E1 P1]]. cbn. rewrite E1. cbn.
+        apply (IH (pre ++ [x]) s1); [|exact P1]. rewrite <- app_assoc. exact E. }
+    apply (G l [] s); auto.
+  Qed.
+
+  Lemma mem_snoc x l y : mem x (l ++ [y]) = mem x l || String.eqb x y.
+  Proof. unfold mem. rewrite existsb_app. cbn. now rewrite orb_false_r. Qed.
+
+  (* ---------- the `for field in fields` loop ---------- *)
+  Definition own_o (tn : string) (inh : list (string * origin)) (fn : string) : origin :=
+    match smap_get fn inh with Some o => o | None => Single tn end.
+
+  Lemma own_spec tn defn inh origins :
+    NoDup (map f_name (t_fields defn)) ->
+    (forall fn, omap_get (tn, fn) origins = None) ->
+    exists inh' org, own_origins tn defn inh origins = Ok (inh', org) /\
+      (forall k, omap_get k org =
+                if String.eqb (fst k) tn && mem (snd k) (map f_name (t_fields defn))
+                then Some (own_o tn inh (snd k)) else omap_get k origins) /\
+      (forall x, In x org -> In x origins \/
+                 exists fn, In fn (map f_name (t_fields defn)) /\ x = ((tn, fn), own_o tn inh fn)).
+  Proof.
+    intros N Hnone. unfold own_origins.
+    destruct (rfold_inv_split
+      (fun (st : list (string * origin) * list (okey * origin)) f =>
+         let '(inh0, org) := st in
+         let o := match smap_get (f_name f) inh0 with Some o => o | None => Single tn end in
+         match omap_get (tn, f_name f) org with
+         | Some _ => Panic site_fo_insert
+         | None => Ok (smap_remove (f_name f) inh0, omap_insert (tn, f_name f) o org)
+         end)
+      (fun pre st =>
+         (forall fn, ~ In fn (map f_name pre) -> smap_get fn (fst st) = smap_get fn inh) /\
+         (forall k, omap_get k (snd st) =
+                    if String.eqb (fst k) tn && mem (snd k) (map f_name pre)
+                    then Some (own_o tn inh (snd k)) else omap_get k origins) /\
+         (forall x, In x (snd st) -> In x origins \/
+                    exists fn, In fn (map f_name pre) /\ x = ((tn, fn), own_o tn inh fn)))
+      (t_fields defn) (inh, origins)) as [[inh' org] [E [_ P]]].
+    - cbn. split; [auto|]. split; [|auto]. intros k. now rewrite andb_false_r.
+    - intros pre f post [inh0 org] El [P1 [P2 P3]]. cbn [fst snd] in *.
+      assert (Hnin : ~ In (f_name f) (map f_name pre)).
+      { rewrite El, map_app in N. cbn in N. apply NoDup_remove_2 in N. intros H. apply N.
+        apply in_or_app. now left. }
+      assert (Eg : omap_get (tn, f_name f) org = None).
+      { rewrite P2. cbn [fst snd]. rewrite String.eqb_refl. apply mem_false in Hnin. rewrite Hnin. apply Hnone. }
+      rewrite Eg. eexists. split; [reflexivity|]. cbn [fst snd]. split.
+      + intros fn Hfn. rewrite map_app, in_app_iff in Hfn. cbn in Hfn.
+        rewrite smap_get_remove. destruct (String.eqb_spec fn (f_name f)) as [->|Nf]; [exfalso; apply Hfn; auto|].
+        apply P1. intros H. apply Hfn. now left.
+      + split; [|
+          intros x Hx; apply omap_insert_In in Hx; destruct Hx as [->|Hx];
+          [ right; exists (f_name f); split; [rewrite map_app; apply in_or_app; right; now left|];
+            unfold own_o; now rewrite <- (P1 _ Hnin)
+          | destruct (P3 x Hx) as [H|[fn [H1 H2]]]; [now left | right; exists fn; split; [|exact H2];
+            rewrite map_app; apply in_or_app; now left ] ] ].
+        intros k. rewrite (omap_get_insert k _ _ _ Eg). rewrite P1 by exact Hnin.
+        change (match smap_get (f_name f) inh with Some o => o | None => Single tn end)
+          with (own_o tn inh (f_name f)).
+        replace (map f_name (pre ++ [f])) with (map f_name pre ++ [f_name f]) by (now rewrite map_app).
+        rewrite mem_snoc.
+        destruct (okey_eqb_spec k (tn, f_name f)) as [->|Nk].
+        * cbn [fst snd]. now rewrite !String.eqb_refl, orb_true_r.
+        * rewrite P2. destruct (String.eqb_spec (fst k) tn) as [E1|E1]; [|reflexivity]. cbn [andb].
+          destruct (String.eqb_spec (snd k) (f_name f)) as [E2|E2]; [|now rewrite orb_false_r].
+          exfalso. apply Nk. destruct k; cbn in *; congruence.
+    - exists inh', org. split; [exact E|]. exact P.
+  Qed.
+
+  (* ---------- the `for next_type in next_types` loop, in closed form ---------- *)
+  Lemma nodup_keys_get {V} (m : list (string * V)) k v :
+    NoDup (map fst m) -> In (k, v) m -> smap_get k m = Some v.
+  Proof.
+    induction m as [|[k' v'] m IH]; intros N H; [destruct H|].
+    cbn in N. inversion N as [|? ? N1 N2]; subst. cbn. destruct H as [[= -> ->]|H].
+    - now rewrite String.eqb_refl.
+    - destruct (String.eqb_spec k k') as [->|E]; [|now apply IH].
+      exfalso. apply N1. change k' with (fst (k', v)). now apply in_map.
+  Qed.
+  Lemma nodup_keys_unique {V} (m : list (string * V)) k v1 v2 :
+    NoDup (map fst m) -> In (k, v1) m -> In (k, v2) m -> v1 = v2.
+  Proof.
+    intros N H1 H2. apply (nodup_keys_get m k v1 N) in H1. apply (nodup_keys_get m k v2 N) in H2. congruence.
+  Qed.
+  Lemma sset_remove_notin x s : ~ In x s -> sset_remove x s = s.
+  Proof.
+    unfold sset_remove. induction s as [|y s IH]; intros H; cbn; [reflexivity|].
+    destruct (String.eqb_spec x y) as [->|E]; cbn.
+    - exfalso. apply H. now left.
+    - f_equal. apply IH. intros H1. apply H. now right.
+  Qed.
+  Lemma sset_remove_nil_in x s : s <> [] -> sset_remove x s = [] -> In x s.
+  Proof.
+    intros N E. destruct (in_dec string_dec x s) as [H|H]; [exact H|].
+    rewrite sset_remove_notin in E by exact H. contradiction.
+  Qed.
+
+  Definition rel_upd (tn : string) (pre : list string) (e : string * list string) : string * list string :=
+    (fst e, if mem (fst e) pre then sset_remove tn (snd e) else snd e).
+  Definition is_nil {A} (l : list A) : bool := match l with [] => true | _ => false end.
+  Definition rel_push (tn : string) (req : list (string * list string)) (n : string) : bool :=
+    match smap_get n req with
+    | Some rem => mem tn rem && is_nil (sset_remove tn rem)
+    | None => false
+    end.
+
+  Lemma smap_get_rel_upd tn pre req n :
+    smap_get n (map (rel_upd tn pre) req) =
+    match smap_get n req with
+    | Some rem => Some (if mem n pre then sset_remove tn rem else rem)
+    | None => None
+    end.
+  Proof.
+    induction req as [|[k v] req IH]; cbn; [reflexivity|].
+    destruct (String.eqb_spec n k) as [->|E]; [reflexivity | exact IH].
+  Qed.
+
+  Lemma release_closed tn waiters q req :
+    NoDup (map fst req) -> NoDup waiters -> (forall n, In n waiters -> In n (map fst req)) ->
+    release_waiters tn waiters q req =
+    Ok (q ++ filter (rel_push tn req) waiters, map (rel_upd tn waiters) req).
+  Proof.
+    intros Nk Nw Hk. unfold release_waiters.
+    destruct (rfold_inv_split
+      (fun (st : list string * list (string * list string)) next =>
+         let '(q0, rq) := st in
+         match smap_get next rq with
+         | None => Panic site_fo_get_mut
+         | Some remaining =>
+             if mem tn remaining then
+               let rem' := sset_remove tn remaining in
+               let rq' := smap_update next rem' rq in
+               match rem' with [] => Ok (q0 ++ [next], rq') | _ => Ok (q0, rq') end
+             else Ok (q0, rq)
+         end)
+      (fun pre st => st = (q ++ filter (rel_push tn req) pre, map (rel_upd tn pre) req))
+      waiters (q, req)) as [st [E P]].
+    - cbn. rewrite app_nil_r. f_equal. symmetry. rewrite <- (map_id req) at 2. apply map_ext. now intros [k v].
+    - intros pre next post st El ->.
+      assert (Hnp : ~ In next pre).
+      { rewrite El in Nw. apply NoDup_remove_2 in Nw. intros H. apply Nw. apply in_or_app. now left. }
+      assert (Hin : In next (map fst req)). { apply Hk. rewrite El. apply in_or_app. right. now left. }
+      destruct (smap_get next req) as [rem|] eqn:Er; [|apply smap_get_none in Er; contradiction].
+      rewrite smap_get_rel_upd, Er. apply mem_false in Hnp. rewrite Hnp.
+      assert (Hupd : forall v, (forall e, In e req -> fst e = next -> v = sset_remove tn (snd e)) ->
+                smap_update next v (map (rel_upd tn pre) req) = map (rel_upd tn (pre ++ [next])) req).
+      { intros v Hv. unfold smap_update. rewrite map_map. apply map_ext_in. intros [k w] He. unfold rel_upd. cbn [fst snd].
+        rewrite mem_snoc. destruct (String.eqb_spec next k) as [<-|Nk'].
+        - rewrite String.eqb_refl, orb_true_r. f_equal. apply (Hv _ He eq_refl).
+        - apply not_eq_sym in Nk'. apply String.eqb_neq in Nk'. now rewrite Nk', orb_false_r. }
+      assert (Hone : forall e, In e req -> fst e = next -> snd e = rem).
+      { intros [k w] He Ek. cbn in *. subst k. apply smap_get_In in Er. apply (nodup_keys_unique req next); auto. }
+      rewrite filter_app. cbn [filter]. unfold rel_push at 2. rewrite Er.
+      destruct (mem tn rem) eqn:Em; cbn [andb].
+      + rewrite (Hupd (sset_remove tn rem)).
+        2:{ intros e He Ee. now rewrite (Hone e He Ee). }
+        destruct (sset_remove tn rem) eqn:Es; cbn [is_nil]; eexists; (split; [reflexivity|]).
+        * now rewrite app_assoc.
+        * now rewrite app_nil_r.
+      + eexists. split; [reflexivity|]. rewrite app_nil_r. f_equal.
+        apply map_ext_in. intros [k w] He. unfold rel_upd. cbn [fst snd]. rewrite mem_snoc.
+        destruct (String.eqb_spec k next) as [->|Nk']; [|now rewrite orb_false_r].
+        rewrite Hnp. cbn [orb]. f_equal. rewrite (Hone _ He eq_refl). cbn [snd].
+        symmetry. apply sset_remove_notin. now apply mem_false.
+    - rewrite E. f_equal. exact P.
+  Qed.
